@@ -431,6 +431,22 @@ pub fn generate(seed: u64, prop: &str) -> PoolScenario {
         for k in 0..(cfg.w_close + 4 + rs.range(0, 4)) {
             sk.push(POp::Mine);
             sk.push(POp::Quiesce);
+            if k + 1 == cfg.w_close && rs.chance(1, 2) {
+                // "late submission": transactions that are already proposed on the chain leave the
+                // pool (RPC removal) and are submitted again one by one, so that each of them is
+                // added to the existing template (update_transactions) rather than to a fresh one
+                let late: Vec<usize> = (0..ntx).filter(|_| rs.chance(1, 2)).collect();
+                for t in late.iter().rev() {
+                    sk.push(POp::Remove { t: *t });
+                }
+                sk.push(POp::Quiesce);
+                sk.push(POp::Mine);
+                sk.push(POp::Quiesce);
+                for t in late.iter() {
+                    sk.push(POp::Submit { t: *t, remote: false });
+                    sk.push(POp::Quiesce);
+                }
+            }
             if k >= cfg.w_close && rs.chance(1, 2) {
                 sk.push(POp::Sibling { seed: rs.below(1 << 40) });
                 if rs.chance(1, 2) {
